@@ -3,6 +3,7 @@ package main
 import (
 	"crypto/sha256"
 	"fmt"
+	"github.com/islishude/bip39"
 	"sort"
 	"strings"
 
@@ -543,6 +544,9 @@ func propC03(c *Ctx) {
 		c.lastWordSweep(cb[0], cb[1])
 		k++
 	}
+	if !c.quick || c.scale > 1 {
+		c.tokenFlood(6000000)
+	}
 	for li := range langVals {
 		for _, n := range entSizes {
 			c.affixSiblings(li, n)
@@ -589,6 +593,36 @@ func (c *Ctx) separatorVariantDefects(li, n int, toks, words []string) {
 			c.chk("separator-variant:valid", l, with(toks, all))
 		}
 	}
+}
+
+// tokenFlood (search phase and thorough tier only): millions of random short tokens, each as the first token of
+// an otherwise plausible 12-word English sentence, straight into CheckMnemonic.  The answer must be the
+// unknown-word error naming that token at position 0.  A lookup that compares fingerprints instead of words
+// (a 32-bit hash of the token) accepts a random token with probability 2048/2^32 per call, so a few million
+// calls turn "no failing input" into a replay; every hit is confirmed through the ordinary chk comparison.
+func (c *Ctx) tokenFlood(n int) {
+	tail := strings.Repeat(" abandon", 11)
+	letters := "abcdefghijklmnopqrstuvwxyz"
+	buf := make([]byte, 0, 8)
+	hits := 0
+	for i := 0; i < n && hits < 3; i++ {
+		buf = buf[:0]
+		for k, ln := 0, 5+c.rng.Intn(3); k < ln; k++ {
+			buf = append(buf, letters[c.rng.Intn(26)])
+		}
+		tok := string(buf)
+		err := bip39.CheckMnemonic(tok+tail, bip39.English)
+		if err != nil && strings.Contains(err.Error(), "`"+tok+"` at `0`") {
+			continue
+		}
+		// a list word by chance, or a wrong answer: let the specification decide
+		impl, _ := c.chk("random-token-flood", int64(langVals[2]), tok+tail)
+		if !strings.HasPrefix(impl, "err other") {
+			hits++
+		}
+	}
+	c.rep.Evaluations += n
+	c.rep.note("random-token flood: %d random first tokens through CheckMnemonic, %d answers other than the unknown-word error (each compared with the specification)", n, hits)
 }
 
 func propC15(c *Ctx) {
@@ -714,6 +748,9 @@ func propC15(c *Ctx) {
 				r.violate(Violation{Kind: "property", Class: "valid", Op: fmt.Sprintf("chk %d %s", l, hx([]byte(strings.Join(toks, " ")))), Impl: impl, Detail: "valid sentence must give nil"})
 			}
 		}
+	}
+	if !c.quick || c.scale > 1 {
+		c.tokenFlood(6000000)
 	}
 	if len(r.Samples) == 0 {
 		r.sample("chk English '<11 list words>' -> err wordLen; chk English 'zz<word>q ...' -> err other 'word `zz..q` at `p` not found in mnemonic mapping'")
